@@ -218,17 +218,22 @@ fn lower_sub_ast_to_instrs(
     encode_labels(&mut out, hooks, &label_info, &ctx.emitter)?;
 
     let mut encoding_state = ArgEncodingState::new();
-    let instrs = out.into_iter().filter_map(|x| match x.value {
-        LowerStmt::Instr(instr) => Some({
+    let mut instrs = vec![];
+    for x in out {
+        if let LowerStmt::Instr(instr) = x.value {
             // this is the second time we're using encode_args (first time was to get labels), so suppress warnings
             let null_emitter = ctx.emitter.with_writer(crate::diagnostic::dev_null());
-            encode_args(&mut encoding_state, hooks, &instr, &ctx.defs, &null_emitter)
-                .expect("we encoded this successfully before!")
-        }),
-        LowerStmt::Label { .. } => None,
-        LowerStmt::RegAlloc { .. } => None,
-        LowerStmt::RegFree { .. } => None,
-    }).collect();
+            match encode_args(&mut encoding_state, hooks, &instr, &ctx.defs, &null_emitter) {
+                Ok(raw_instr) => instrs.push(raw_instr),
+                // The first time, labels were still dummy values.  The real offset or time of a label
+                // may not fit in the argument it is written to; encode once more to report that.
+                Err(_) => return Err({
+                    encode_args(&mut ArgEncodingState::new(), hooks, &instr, &ctx.defs, &ctx.emitter).err()
+                        .unwrap_or_else(|| ctx.emitter.emit(error!("failed to encode instruction with opcode {}", instr.opcode)))
+                }),
+            }
+        }
+    }
     let debug_info = do_debug_info.then(|| debug_info::ScriptLoweringInfo {
         register_info: debug_info_registers.unwrap(),
         offset_info: debug_info_labels.unwrap(),
